@@ -74,6 +74,18 @@ func TestVerifC10Workers(t *testing.T) {
 	}
 	_ = ir.DefaultLiteralPolicy
 	_ = diff.MaxFunctionBlocks
+	// a second tree: ONE package directory that mixes an ordinary file (whose function matches a
+	// signature) with files that belong to no package on this platform
+	root2 := filepath.Join(scratch, "tree2")
+	for rel, c := range map[string]string{
+		"agent/agent.go":         "package agent\n\nfunc handle(a int) int {\n\tt := 0\n\tfor i := 0; i < a; i++ {\n\t\tt += i * 2\n\t}\n\treturn t\n}\n",
+		"agent/agent_windows.go": "package agent\n\nfunc hook(a int) int { return a + 2 }\n",
+		"agent/zgen.go":          "//go:build ignore\n\npackage main\n\nfunc main() {}\n",
+	} {
+		p := filepath.Join(root2, rel)
+		os.MkdirAll(filepath.Dir(p), 0o755)
+		os.WriteFile(p, []byte(c), 0o644)
+	}
 	scenarios := []struct {
 		name string
 		run  func() string
@@ -96,6 +108,17 @@ func TestVerifC10Workers(t *testing.T) {
 			old := os.Stdout
 			os.Stdout = f
 			err := RunScanLogic(RealFileSystem{}, RealPackageLoader{}, root, models.ScanOptions{DBPath: dbPath, Threshold: 0.75})
+			os.Stdout = old
+			f.Close()
+			b, _ := os.ReadFile(tmp)
+			return fmt.Sprintf("%s err=%v", b, err)
+		}},
+		{"RunScanLogic(package dir with build-excluded files)", func() string {
+			tmp := filepath.Join(scratch, "stdout2.json")
+			f, _ := os.Create(tmp)
+			old := os.Stdout
+			os.Stdout = f
+			err := RunScanLogic(RealFileSystem{}, RealPackageLoader{}, root2, models.ScanOptions{DBPath: dbPath, Threshold: 0.75})
 			os.Stdout = old
 			f.Close()
 			b, _ := os.ReadFile(tmp)
